@@ -925,6 +925,9 @@ func (x *Exec) guardAccess(st *State, structT types.Type, field string, ptr *Ter
 			if strings.HasPrefix(g.Pattern, "global.") {
 				continue
 			}
+			if g.WritesOnly && !write {
+				continue
+			}
 			var goal *Term
 			var gprops []string
 			if g.Mutex != "" {
